@@ -116,6 +116,7 @@ def rule_op_sem(ctx: RuleContext, p: Program, rid: str) -> None:
 
     class Interp(possem.PosInterp):
         tag = 'OP-SEM'
+        _foreign_methods = True          # the value getters live in the modules of their classes: their globals are resolved there
 
         def __init__(self) -> None:
             super().__init__(ts, [], module=m)
